@@ -64,10 +64,48 @@ func run(dir string, name string, args ...string) (string, error) {
 	return string(out), err
 }
 
+// altRepo, when VERIF_REPO is set (development aid: run the checks against a
+// scratch worktree without touching /repo), makes every build use a copy of
+// the modfile whose replace directive points there.  Registered commands
+// never set it.
+var altRepo = os.Getenv("VERIF_REPO")
+
+var altFiles = map[string]string{}
+
+func modfileFor(name string) string {
+	if name == "" {
+		name = "go.mod"
+	}
+	src := filepath.Join(mcDir, name)
+	if altRepo == "" {
+		if name == "go.mod" {
+			return ""
+		}
+		return src
+	}
+	if p, ok := altFiles[name]; ok {
+		return p
+	}
+	b, err := os.ReadFile(src)
+	if err != nil {
+		die("%v", err)
+	}
+	txt := strings.Replace(string(b), "=> /repo", "=> "+altRepo, 1)
+	txt = strings.Replace(txt, "=> ../shim/bytebufferpool", "=> "+filepath.Join(filepath.Dir(mcDir), "shim", "bytebufferpool"), 1)
+	dir := filepath.Join(mcDir, "work", fmt.Sprintf("alt-%d", os.Getpid()))
+	os.MkdirAll(dir, 0o755)
+	p := filepath.Join(dir, name)
+	os.WriteFile(p, []byte(txt), 0o644)
+	sum, _ := os.ReadFile(strings.TrimSuffix(src, ".mod") + ".sum")
+	os.WriteFile(strings.TrimSuffix(p, ".mod")+".sum", sum, 0o644)
+	altFiles[name] = p
+	return p
+}
+
 func goBuild(def checkDef, out string, pkg string) {
 	args := []string{"build", "-tags", "verif"}
-	if def.modfile != "" {
-		args = append(args, "-modfile="+filepath.Join(mcDir, def.modfile))
+	if mf := modfileFor(def.modfile); mf != "" {
+		args = append(args, "-modfile="+mf)
 	}
 	args = append(args, "-o", out, pkg)
 	if o, err := run(mcDir, "go", args...); err != nil {
@@ -129,8 +167,8 @@ func prepare(id string, tag string) (string, string) {
 	}
 	bin := filepath.Join(runDir, "bin", "check")
 	args := []string{"build", "-tags", "verif"}
-	if def.modfile != "" {
-		args = append(args, "-modfile="+filepath.Join(mcDir, def.modfile))
+	if mf := modfileFor(def.modfile); mf != "" {
+		args = append(args, "-modfile="+mf)
 	}
 	args = append(args, "-o", bin, "./work/"+runName+"/main")
 	if o, err := run(mcDir, "go", args...); err != nil {
@@ -153,6 +191,9 @@ func prepare(id string, tag string) (string, string) {
 // generates/compiles with the tree under test.
 func writeGenFailure(id, what, output string) {
 	verif := filepath.Dir(mcDir)
+	if d := os.Getenv("VERIF_OUT_DIR"); d != "" {
+		verif = d
+	}
 	os.MkdirAll(filepath.Join(verif, "replays"), 0o755)
 	p := filepath.Join(verif, "replays", id+"-catalogue-build.json")
 	if len(output) > 4000 {
@@ -188,7 +229,13 @@ func execCheck(runDir, bin string, args ...string) int {
 	cmd.Dir = mcDir
 	cmd.Stdout = os.Stdout
 	cmd.Stderr = os.Stderr
-	cmd.Env = append(os.Environ(),
+	env := os.Environ()
+	if altRepo != "" {
+		// nested go invocations (program batches, the race build) follow the
+		// same redirection through GOFLAGS
+		env = append(env, "GOFLAGS=-mod=mod -modfile="+modfileFor("go.mod"))
+	}
+	cmd.Env = append(env,
 		"VERIF_WORK="+runDir,
 		"VERIF_PARQUETGEN="+filepath.Join(runDir, "bin", "parquetgen"),
 		"VERIF_MC="+mcDir,
@@ -292,6 +339,7 @@ func main() {
 		}
 		code := execCheck(runDir, bin, "-tier", tier)
 		os.RemoveAll(runDir)
+		os.RemoveAll(filepath.Join(mcDir, "work", fmt.Sprintf("alt-%d", os.Getpid())))
 		if gc := os.Getenv("VERIF_SCRATCH_GOCACHE"); gc != "" {
 			exec.Command("chmod", "-R", "u+w", gc).Run()
 			os.RemoveAll(gc)
